@@ -291,7 +291,10 @@ fn arbitrary_driver(seed: u64, n: u64, out: &str) -> i32 {
     // the same maximal requests with every text made of multi-byte characters, at every alignment:
     // capacity cuts and fixed-offset slices then fall inside characters
     for sel in selectors.iter().take(7) {
-        for ch in [&b"\xC3\xA9"[..], &b"\xE2\x82\xAC"[..], &b"\xF0\x9F\x98\x81"[..]] {
+        // (the last seven change their length under a case mapping or a normalisation: U+0130, U+023A,
+        // sharp s, the fi ligature, the Kelvin sign, capital sharp s, the Ohm sign)
+        for ch in [&b"\xC3\xA9"[..], &b"\xE2\x82\xAC"[..], &b"\xF0\x9F\x98\x81"[..], &b"\xC4\xB0"[..], &b"\xC8\xBA"[..], &b"\xC3\x9F"[..],
+                   &b"\xEF\xAC\x81"[..], &b"\xE2\x84\xAA"[..], &b"\xE1\xBA\x9E"[..], &b"\xE2\x84\xA6"[..]] {
             for lead in 0..4usize {
                 for tail in [0usize, 1, 2, 5] {
                     let mut b = sel.to_vec();
@@ -300,7 +303,7 @@ fn arbitrary_driver(seed: u64, n: u64, out: &str) -> i32 {
                     // the lengths of borrowed strings and byte strings are read from the END of the input
                     b.extend(std::iter::repeat(0x01u8).take(tail));
                     b.extend_from_slice(&[40, 33, 35, 64][..(lead % 4) + 1]);
-                    sweeps.push(b);
+                    front.push(b);
                 }
             }
         }
